@@ -48,6 +48,7 @@ func main() {
 	}
 	docs := append(append([]conc.Doc{}, conc.CrossAddons(inputs)...), inputs...)
 	docs = append(docs, outputs...)
+	docs = append(docs, conc.TinyCorpus(3)...)
 	rng := rand.New(rand.NewSource(*seed))
 	rng.Shuffle(len(docs), func(i, j int) { docs[i], docs[j] = docs[j], docs[i] })
 	if *maxDocs > 0 && len(docs) > *maxDocs {
@@ -83,6 +84,16 @@ func main() {
 		}
 		close(start)
 		cwg.Wait()
+	}
+	// small documents of the same schema written at the same time, every marshalling entry point
+	// (after the cold phase: that one only validates / calculates, nothing has been written yet)
+	{
+		tiny := conc.TinyDocs(8)
+		want, probs := conc.TinyWant(tiny)
+		more, _ := conc.TinyConcurrent(tiny, want, *g, 2)
+		for _, p := range append(probs, more...) {
+			fmt.Printf("TRANSCRIPT-DIFFERS small documents of %s: %s\n", p.Schema, p.What)
+		}
 	}
 	deadline := time.Now().Add(*budget)
 	// every goroutine walks the same list from a different offset, so that the
